@@ -99,7 +99,10 @@ def _job(job):
     common.use_repo()
     from athlib.utils import check_performance_for_discipline as cp, get_distance, field_event_record
     from athlib import check_event_code
-    from athlib.utils import FIELD_EVENT_RECORDS_BY_GENDER as RECORDS
+    try:
+        from athlib.utils import FIELD_EVENT_RECORDS_BY_GENDER as RECORDS      # followed only for entries the pinned table lacks
+    except ImportError:                                                          # or that moved up by a new record (<= 2 %)
+        RECORDS = {}
     code, loose, tl = job
     if isinstance(code, (list, tuple)):
         # a group of spellings of one discipline, asked in turn for every text (the order rotating): what the function
